@@ -215,6 +215,23 @@ def slot_obs(tier, rnd):
     return obs
 
 
+def nested_obs():
+    """a MetaModule (whose embedded project is read by a nested load) followed by values outside the known ranges:
+    the whole file is still decoded per the format"""
+    body = """
+    inner = RF.enc_project(modules=[RF.enc_output(), RF.enc_module("Amplifier", flags=0x51, in_project=True, cvals=[iv])])
+    mm = RF.enc_module("MetaModule", flags=0x8051, in_project=True, cvals=[256, 1, 0, w_bpm, 6], chunks=[(0, inner), (1, [0] * 384), (2, [0] * 8)], chnk=104)
+    amp = RF.enc_module("Amplifier", flags=0x51, in_project=True, cvals=[w_vol, 128])
+    p = load_bytes(RF.enc_project(modules=[RF.enc_output(), mm, amp]))
+    m1, m2 = p.modules[1], p.modules[2]
+    return (m2.volume == w_vol and m2.balance == 0 and m2.dc_offset == 0 and m1.bpm == w_bpm and m1.project.modules[1].volume == iv
+            and type(m1).__name__ == "MetaModule" and len(p.modules) == 3)
+"""
+    return [Ob("nested.lenient", build([R("w_vol", 0, 2**31 - 1), R("w_bpm", 0, 2**31 - 1), R("iv", 0, 2**31 - 1)], body, setup=SETUP),
+               "a file with a MetaModule and stored controller values outside the known ranges (in the embedded project, on the MetaModule itself and on a later module) is decoded value by value",
+               group="nested", shape="REF-ENC project [Output, MetaModule[Output, Amplifier], Amplifier]", symbolic="three stored controller words over 0..2^31-1 (in and out of range)", timeout=400)]
+
+
 def legacy_obs():
     body = """
     hdr = RF.enc_project_header(version=(v0, v1, v2, v3))
@@ -287,4 +304,4 @@ def unknown_obs(tier, rnd):
 def obligations(tier, seed):
     rnd = random.Random(seed)
     S = spec.load()
-    return common_obs(tier, rnd, S) + cval_count_obs(tier, rnd, S) + optional_obs(tier, rnd) + slot_obs(tier, rnd) + legacy_obs() + unknown_obs(tier, rnd)
+    return common_obs(tier, rnd, S) + cval_count_obs(tier, rnd, S) + optional_obs(tier, rnd) + slot_obs(tier, rnd) + legacy_obs() + nested_obs() + unknown_obs(tier, rnd)
